@@ -9,7 +9,7 @@ use feos_core::{Components, Contributions, DensityInitialization, PhaseEquilibri
 use feos_dft::adsorption::{ExternalPotential, Pore1D, PoreSpecification};
 use feos_dft::interface::PlanarInterface;
 use feos_dft::{DFTSolver, DFTSpecifications, Geometry};
-use ndarray::arr1;
+use ndarray::{arr1, Array1};
 use quantity::*;
 use serde_json::json;
 use std::sync::Arc;
@@ -264,21 +264,41 @@ fn spec(sys: &Sys, rec: &mut Rec) {
     };
     let n0 = gc.profile.moles().to_reduced();
     let solver = DFTSolver::new(None).anderson_mixing(Some(true), Some(50), Some(1e-5), None, None).anderson_mixing(Some(false), Some(1500), Some(1e-11), Some(0.05), Some(20));
-    for f in [1.0, 1.1] {
+    // per-component factors: equal scaling, and (for mixtures) a changed ratio that forces another bulk composition
+    let factor_sets: Vec<(f64, Vec<f64>)> = if n0.len() > 1 { vec![(1.0, vec![1.0; n0.len()]), (1.1, vec![1.1; n0.len()]), (1.05, vec![1.1, 0.95]), (1.06, vec![0.95, 1.1])] } else { vec![(1.0, vec![1.0]), (1.1, vec![1.1])] };
+    for (f, fs) in factor_sets {
         for kind in ["moles", "total_moles"] {
+            let uniform = fs.iter().all(|v| *v == fs[0]);
+            if kind == "total_moles" && !uniform {
+                continue;
+            }
+            let target: Array1<f64> = n0.iter().zip(fs.iter()).map(|(n, f)| n * f).collect();
             let mut pp = gc.clone();
-            pp.profile.specification = Arc::new(if kind == "moles" { DFTSpecifications::Moles { moles: &n0 * f } } else { DFTSpecifications::TotalMoles { total_moles: n0.sum() * f } });
-            let sub = format!("{kind}|{f}N0");
+            pp.profile.specification = Arc::new(if kind == "moles" { DFTSpecifications::Moles { moles: target.clone() } } else { DFTSpecifications::TotalMoles { total_moles: n0.sum() * f } });
+            let sub = if uniform { format!("{kind}|{f}N0") } else { format!("{kind}|{fs:?}N0") };
             match pp.solve_inplace(Some(&solver), false) {
                 Ok(()) => {
                     rec.count(&format!("spec_{kind}_converged"));
                     check_profile(rec, &sub, &pp.profile, 1e-11);
                     let n = pp.profile.moles().to_reduced();
-                    let e = if kind == "moles" { (&n - &(&n0 * f)).iter().zip(n0.iter()).map(|(d, n)| (d / (n * f)).abs()).fold(0.0, f64::max) } else { ((n.sum() - n0.sum() * f) / (n0.sum() * f)).abs() };
+                    let e = if kind == "moles" { (&n - &target).iter().zip(target.iter()).map(|(d, n)| (d / n).abs()).fold(0.0, f64::max) } else { ((n.sum() - n0.sum() * f) / (n0.sum() * f)).abs() };
+                    // the returned bulk state is the one the profile is in equilibrium with: solving again at that bulk with the
+                    // default (chemical potential) specification must leave the profile where it is
+                    let mut again = pp.clone();
+                    again.profile.specification = Arc::new(DFTSpecifications::ChemicalPotential);
+                    let again_result = again.solve_inplace(Some(&solver), false);
+                    if again_result.is_err() {
+                        rec.count("re-solve at the returned bulk does not converge");
+                    }
+                    if again_result.is_ok() {
+                        let n2 = again.profile.moles().to_reduced();
+                        let d = (&n2 - &n).iter().zip(n.iter()).map(|(d, n)| (d / n).abs()).fold(0.0, f64::max);
+                        rec.check("returned_bulk_is_equilibrium_bulk", &sub, d / 1e-5, true, || format!("re-solving at the returned bulk state moves the particle numbers from {n} to {n2} (bulk mole fractions {})", pp.profile.bulk.molefracs));
+                    }
                     // the residual tolerance (1e-11 in reduced density, densities ~1e-4) bounds the particle number only up to the
                     // conditioning of the strongly damped fixed-point map: 6e-6 observed on the pinned tree for 1.1 N0
                     rec.check("specified_particle_number", &sub, e / 1e-4, true, || format!("specified {} x {f}, profile contains {n}", n0));
-                    if f == 1.0 {
+                    if f == 1.0 && uniform {
                         // the grand-canonical profile already has N0 particles: it must be reproduced
                         let d = ((&pp.profile.density.to_reduced() - &gc.profile.density.to_reduced()).mapv(f64::abs).sum() / gc.profile.density.to_reduced().sum()).abs();
                         rec.check("path_independent_observable", &format!("{sub}|profile"), d / 1e-6, true, || format!("profile with the particle number of the grand-canonical solution differs from it by {d:e} (relative l1)"));
